@@ -262,6 +262,28 @@ def gen_sauce():
     out.append(f'def widthMax : Nat := {int(m.group(1))}\ndef widthFallback : Nat := {int(m.group(2))}\n')
     _need(re.search(r'Ok\(Some\(sauce\)\) => \{\s*len -= sauce\.sauce_header_len;\s*Some\(sauce\)\s*\}', b), 'from_bytes split')
     _need(re.search(r'return fmt\.load_buffer\(file_name, &bytes\[\.\.len\], sauce_data\);', b), 'from_bytes slice')
+    # the whole SAUCE skeleton of `Buffer::from_bytes` (Model/Sauce.lean `fromBytesSplit`): `extract` sees the WHOLE file
+    # (not a window of it), `len` starts as the file length and is changed by the header length only, every loader call
+    # gets `&bytes[..len]` and the record
+    m = _need(re.search(r'pub fn from_bytes\(file_name: &Path, _skip_errors: bool, bytes: &\[u8\]\) -> EngineResult<Buffer> \{', b), 'from_bytes signature')
+    fb, _ = _block(b, m.end() - 1)
+    fbn = re.sub(r'\s+', ' ', fb)
+    _need(re.search(r'let mut len = bytes\.len\(\); let sauce_data = match SauceData::extract\(bytes\) \{ '
+                    r'Ok\(Some\(sauce\)\) => \{ len -= sauce\.sauce_header_len; Some\(sauce\) \} '
+                    r'Ok\(None\) => None, Err\(err\) => \{ log::error!\("Error reading sauce data: \{\}", err\); None \} \};', fbn),
+          'from_bytes: extract(bytes) on the whole file / len arithmetic')
+    if len(re.findall(r'SauceData::extract\(', fbn)) != 1:
+        raise ExtractError('SAUCE: from_bytes calls SauceData::extract more than once')
+    if len(re.findall(r'\blen\s*(?:[-+*/%|&^]|<<|>>)?=(?!=)', fbn)) != 2:     # `let mut len =` and `len -=`
+        raise ExtractError('SAUCE: from_bytes changes `len` in a way Model/Sauce.lean fromBytesSplit does not follow')
+    if re.search(r'let (?:mut )?(?:bytes|sauce_data)\b', fbn.replace('let sauce_data = match SauceData::extract(bytes)', '', 1)):
+        raise ExtractError('SAUCE: from_bytes rebinds `bytes`/`sauce_data`')
+    calls = re.findall(r'load_buffer\(([^;]*)\);?', fbn)
+    if len(calls) != 2 or any(c.strip() != 'file_name, &bytes[..len], sauce_data' for c in calls):
+        raise ExtractError(f'SAUCE: from_bytes loader calls {calls} (expected two calls with `&bytes[..len], sauce_data`)')
+    out.append('/-- `Buffer::from_bytes` pinned: `SauceData::extract(bytes)` on the whole file, `len -= sauce_header_len` only,\n'
+               '    this many `load_buffer(file_name, &bytes[..len], sauce_data)` calls (extension table + Ansi fallback) -/\n')
+    out.append(f'def fromBytesLoaderCalls : Nat := {len(calls)}\n')
     rows = []
     for f in ['ansi', 'ascii', 'avatar', 'pcboard', 'bin', 'xbinary', 'tundra', 'artworx', 'ice_draw', 'icy_draw']:
         t = _strip_comments(src(f'src/formats/{f}.rs'))
